@@ -13,10 +13,10 @@ type C01Case struct {
 
 func genTreeCase(t *rapid.T) V {
 	cfg := DefaultTreeCfg()
-	if Thorough() && drawInt(t, 0, 199, "chainclass") == 0 {
+	if Thorough() && oneIn(t, 200, "chainclass") {
 		return GenChain(t, cfg, 400)
 	}
-	if drawInt(t, 0, 30, "chainclass") == 0 {
+	if oneIn(t, 31, "chainclass") {
 		return GenChain(t, cfg, 40)
 	}
 	return GenRoot(t, cfg)
